@@ -75,7 +75,10 @@ def main():
     try:
         rc1, out1 = sh(["/venv/bin/python", str(src / "demo.py")], cwd=wt, env=env_wt, timeout=600)
         meta["steps"]["demo_with_change"] = {"rc": rc1, "tail": out1[-600:]}
-        if "--no-suite" not in sys.argv:
+        pre = src / "suite.json"          # written by harness/seed_suite_pre.py (same patch, same HEAD), if it ran
+        if pre.exists() and json.loads(pre.read_text()).get("repo_commit") == meta["repo_commit"]:
+            meta["steps"]["suite_with_change"] = json.loads(pre.read_text())["suite_with_change"]
+        elif "--no-suite" not in sys.argv:
             missing = suite(wt)
             meta["steps"]["suite_with_change"] = {"baseline_tests_not_passing": len(missing), "first": missing[:5]}
         env = dict(os.environ, ATTRS_REPO=str(wt))
